@@ -353,12 +353,12 @@ var stdReadOnly = map[string]bool{
 	"strconv.ParseFloat": true, "strconv.ParseInt": true, "strconv.ParseUint": true, "strconv.Atoi": true,
 	"encoding/json.Unmarshal": true, "encoding/json.Valid": true, "encoding/json.Compact": true, "encoding/json.Indent": true, "encoding/json.HTMLEscape": true,
 	"encoding/base64.(*Encoding).Decode": true, "encoding/base64.(*Encoding).DecodedLen": true,
-	"encoding.TextUnmarshaler.UnmarshalText": true,
+	"encoding.TextUnmarshaler.UnmarshalText":    true,
 	"encoding/json.(*RawMessage).UnmarshalJSON": true, // copies its argument into the message
 	"encoding/json.(RawMessage).MarshalJSON":    true,
-	"encoding/base64.NewEncoder":               true,
-	"reflect.(Value).SetBytes":                 false,
-	"fmt.Errorf": true, "fmt.Sprintf": true, "fmt.Printf": true, "fmt.Fprintf": true, "fmt.Sprint": true, "fmt.Println": true, "fmt.Fprint": true, "fmt.Fprintln": true, "fmt.Print": true,
+	"encoding/base64.NewEncoder":                true,
+	"reflect.(Value).SetBytes":                  false,
+	"fmt.Errorf":                                true, "fmt.Sprintf": true, "fmt.Printf": true, "fmt.Fprintf": true, "fmt.Sprint": true, "fmt.Println": true, "fmt.Fprint": true, "fmt.Fprintln": true, "fmt.Print": true,
 	"log.Fatalf": true, "log.Printf": true,
 	"reflect.ValueOf": true, "reflect.TypeOf": true, "reflect.DeepEqual": true,
 	"io.Writer.Write": true, "io.(Writer).Write": true, "os.(*File).Write": true, "bufio.(*Writer).Write": true,
@@ -373,8 +373,8 @@ var stdWrites = map[string][]int{
 	"encoding/hex.Encode":                {0},
 	"strconv.AppendInt":                  {0}, "strconv.AppendUint": {0}, "strconv.AppendFloat": {0}, "strconv.AppendQuote": {0}, "strconv.AppendBool": {0},
 	"unicode/utf8.AppendRune": {0}, "unicode/utf8.EncodeRune": {0},
-	"bytes.NewBuffer":         {0}, // the buffer takes ownership of the slice and writes into it
-	"io.ReadFull":             {1}, "io.(Reader).Read": {1},
+	"bytes.NewBuffer": {0}, // the buffer takes ownership of the slice and writes into it
+	"io.ReadFull":     {1}, "io.(Reader).Read": {1},
 }
 
 // interface methods that, by documented contract, do not modify the byte slice they receive
